@@ -12,6 +12,13 @@ CHECKS = {'C01': {'note': 'trusted: rustc MIR + trait resolution, PANIC_API/SAFE
                  'rscel and rscel-to-sql is discharged by a class rule or a reviewed table row, every recursion cycle is cut by a dominating depth guard that '
                  'is not reset on the cycle, jump targets are bounds-checked. Exhaustive over the finite site set of the current tree; it does not execute '
                  'anything and does not decide loop termination or stack bytes.'},
+ 'C02': {'note': 'trusted: rustc MIR; symex summaries; two loop iterations represent each binary loop (the loop-carried node is an arbitrary node of the same level)',
+         'technique': 'symbolic execution of the parse functions: level-chain, token and operator-triple tables + tree / code shape per iteration',
+         'text': 'Decides the grammar the recursive-descent parser implements, read off the templates that symbolic execution of each parse function yields (all builder paths): which tighter level parses each operand '
+                 'of each level (first and right operands; ?: condition and true branch at the || level, false branch at the expression level; bracketed operands at the expression level; prefix runs apply to a member), '
+                 'which operator tokens each level consumes (disjoint classes in the order ?:, ||, &&, relations incl. in, + -, * / %, unary, postfix), that token, tree operator, opcode and folded function denote the same '
+                 'operator, that each loop iteration builds Binary{lhs: previous, rhs: new} and previous ++ new ++ [op] (left grouping), that the VM applies binary opcodes to (left, right), and that every prefix '
+                 'operator emits exactly one NOT / NEG. Invariance of evaluation under redundant parentheses / whitespace in general is not decided (tokenisation of whitespace is outside this check).'},
  'C03': {'note': 'trusted: rustc MIR at mir-opt-level 0, std checked_* contracts; default features',
          'technique': 'MIR assert/cast/callee rules over the operator impls',
          'text': 'Decides that no integer arm of + - * / % unary- can wrap or depend on the build profile (no Overflow assert, checked_* primitives, zero '
@@ -107,9 +114,7 @@ CHECKS = {'C01': {'note': 'trusted: rustc MIR + trait resolution, PANIC_API/SAFE
          'text': "Decides: string literals pass through an escape before being quoted, both call-argument arms undo the parser's reverse storage, no "
                  'undischarged panic edge in the translator, every grammar node has an IntoSqlBuilder impl. SQL re-parse equivalence is not decided.'}}
 
-NOT_APPLICABLE = {'C02': "the deciding rule (level chain + token table extracted from the parse functions' syntax) needs the syntax-level extractor (synfacts/ETX of DESIGN.md "
-        'section 2) which was not built in the time available; no sound cheaper structural clause was found that would not also fire on behaviour-preserving '
-        'edits',
+NOT_APPLICABLE = {
  'C18': 'span exactness depends on token positions at run time; the look-ahead typestate rule over the parser was designed but not built'}
 
 
